@@ -90,6 +90,21 @@ IDENTITY_METHODS = {'reshape', 'flatten', 'copy', 'ravel', 'astype',
                     'squeeze', 'transpose', 'filled'}
 
 
+def _floordiv(x, y):
+    # counts that are divided into equal blocks (`n_sim // n_kernels`, a
+    # reshape follows and raises otherwise) divide exactly; a *sum over the
+    # elements* (len() of the data inside a formula) does not
+    q = x / y
+    try:
+        if any(getattr(a, 'func', None) is not None
+               and getattr(a.func, '__name__', '') == 'S'
+               for a in sp.sympify(q).atoms(sp.Function)):
+            return sp.floor(q)
+    except Exception:
+        pass
+    return q
+
+
 def norm_pdf(x):
     return sp.exp(-x**2 / 2) / sp.sqrt(2 * sp.pi)
 
@@ -447,7 +462,7 @@ class Lifter:
         f = {ast.Add: lambda x, y: x + y, ast.Sub: lambda x, y: x - y,
              ast.Mult: lambda x, y: x * y, ast.Div: lambda x, y: x / y,
              ast.Pow: lambda x, y: x ** y,
-             ast.FloorDiv: lambda x, y: x / y}.get(type(op))
+             ast.FloorDiv: _floordiv}.get(type(op))
         if f is None:
             raise Unsupported('operator %s' % type(op).__name__)
         if isinstance(a, Slots) and isinstance(b, Slots):
